@@ -38,21 +38,28 @@ def build(release=False):
     return dst
 
 
-def run(cases, release=False, timeout=600):
-    """Run a list of case dicts; returns list of result dicts (same order)."""
+def run(cases, release=False, timeout=120, single_timeout=20):
+    """Run a list of case dicts; returns list of result dicts (same order). A case that crashes the process or does not
+    return within single_timeout seconds yields {"crash": rc} / {"timeout": secs}."""
     exe = build(release)
     out = []
     CH = 2000
     for i in range(0, len(cases), CH):
         chunk = cases[i:i + CH]
-        p = subprocess.run([exe], input=json.dumps(chunk), capture_output=True, text=True, timeout=timeout)
-        if p.returncode != 0:
-            # a hard crash/abort: bisect to single cases
-            if len(chunk) == 1:
-                out.append({"crash": p.returncode, "stderr": p.stderr[-500:]})
-                continue
-            for c in chunk:
-                out.extend(run([c], release, timeout))
-            continue
-        out.extend(json.loads(p.stdout))
+        out.extend(_run_chunk(exe, chunk, timeout, single_timeout))
     return out
+
+
+def _run_chunk(exe, chunk, timeout, single_timeout):
+    try:
+        p = subprocess.run([exe], input=json.dumps(chunk), capture_output=True, text=True,
+                           timeout=single_timeout if len(chunk) == 1 else timeout)
+        if p.returncode == 0:
+            return json.loads(p.stdout)
+        if len(chunk) == 1:
+            return [{"crash": p.returncode, "stderr": p.stderr[-500:]}]
+    except subprocess.TimeoutExpired:
+        if len(chunk) == 1:
+            return [{"timeout": single_timeout}]
+    mid = len(chunk) // 2
+    return _run_chunk(exe, chunk[:mid], timeout, single_timeout) + _run_chunk(exe, chunk[mid:], timeout, single_timeout)
